@@ -383,6 +383,16 @@ pub fn scope(name: &str) -> Scope {
         "LP" => Scope::new("LP", &["a", "b", "aa", "ab", "aab", "aba", "abab"], &["*", "?", "+"], false, &['a', 'b']),
         // group nesting: capturing groups around / beside possibly-empty terms
         "NEST" => Scope::new("NEST", &["a", "b?", "c*"], &[], true, &['a', 'b', 'c']),
+        // alternations of short literals in every order (ordered choice across branches of
+        // different length), no quantifiers
+        "ALT3" => Scope::new("ALT3", &["a", "b", "ab", "ba", "bb"], &[], false, &['a', 'b']),
+        // case: inputs of length 3 over a small alphabet (runs that mix case)
+        "CI2" => Scope::new("CI2", &["a", "A", "b", "[a-b]"], &["*", "+", "?"], true, &['a', 'A', 'b', 'B']),
+        "CI2A" => scope("CI2").wrapped("CI2A", "^(?:", ")$", &['a', 'A', 'b', 'B']),
+        // an optional or repeated leading group that contains an anchor
+        "ANQ" => Scope::new("ANQ", &["a", "b", "(?:^a)", "(?:^a?)", "(^a)", "(?:a$)", "(?:^|a)", "(?:^-)"], &["?", "*", "+"], false, &['a', 'b', '\n', '-']),
+        // negated groups with a subtraction (the order of negation and subtraction)
+        "CLN" => Scope::new("CLN", &["a", "b", "[^a-[b]]", "[^a-c-[b]]", "[ab-[b]]", "[^\\d-[1]]", "[^a-[^b]]"], &["*", "+", "?"], false, &['a', 'b', 'c', '1']),
         // anchors beside capturing groups in alternations: two matches with the same text
         // but different group participation
         "ANCG" => Scope::new("ANCG", &["^", "$", "(a)", "a", "(b)", "b"], &[], false, &['a', 'b', '\n']),
